@@ -410,7 +410,8 @@ abstracts to THE SAME plain databases `w`: every database holds the same tables 
 (`C17_contents_are_what_a_reader_sees`), and the invariant holds again - every database is closed - so
 the `exec` theorems apply again: after a USE each database accepts new rows as before
 (`C17_accepted_statement`, `C18_session_statement_never_crashes`).  (A crash WITHOUT the close is C02:
-`C02_rounds_no_recovery_fails`, under its side conditions `PtSelf` / `FreshM`.) -/
+`C02_rounds_no_recovery_fails`; its side conditions `PtSelf` / `FreshM` hold in every database reached
+from CREATE DATABASE, `C02_side_conditions_hold_in_every_reachable_database`.) -/
 theorem C17_restart_preserves_every_database (s : Sess) (w : String → Spec.SDB) (h : SessAbs s w) :
     ∃ s', restart s = some s' ∧ SessAbs s' w ∧ names s' = names s ∧ s'.cur = none := by
   obtain ⟨s', e, h1, h2, h3, _⟩ := restart_sessAbs h
